@@ -547,7 +547,7 @@ def generate(unit_dir, repo, out_path):
     stats = {"rewrites": {}, "external_body": [], "items": [], "raw": []}
     cache = {}
     out.add("// GENERATED by /verif/extract/gen.py from /repo -- do not edit", "gen", None, None)
-    out.add("#![feature(allocator_api)]", "gen", None, None)
+    out.add("#![feature(allocator_api, pattern)]", "gen", None, None)
     out.add("#![allow(unused, non_snake_case, non_camel_case_types, unreachable_code, unused_parens, unused_braces, non_upper_case_globals)]", "gen", None, None)
     for kind, part in unit["parts"]:
         if kind == "text":
